@@ -224,6 +224,14 @@ class EffectChecker:
                 return PYVAL
             if bk == OTHER and isinstance(f.value, ast.Name) and self.env.get(f.value.id) in ("PYLIST",):
                 return OTHER
+            if isinstance(f.value, ast.Name) and f.value.id in getattr(self, "local_lists", ()) and f.attr in ("append", "extend", "insert") and not c.keywords:
+                # a list the function itself created (display / list()), filled element by element: the explicit-loop form of a comprehension.
+                # The list takes the kind of what is put into it; nothing is called on the elements.
+                if any(k_ in (PYVAL, PYVALS) for k_ in argk):
+                    self.env[f.value.id] = PYVALS
+                elif any(k_ == NODE for k_ in argk) and self.env.get(f.value.id) != PYVALS:
+                    self.env[f.value.id] = NODELIST
+                return OTHER
             if isinstance(f.value, ast.Name) and f.value.id in ("ast", "json") and f.attr in ("parse", "literal_eval", "loads"):
                 return NODE if f.attr == "parse" else PYVAL
             if bk == STR and f.attr in ("strip", "lower", "replace", "startswith"):
@@ -279,11 +287,20 @@ class EffectChecker:
             k = self.kind(st.value)
             for t in st.targets:
                 self.bind(t, k)
+                if isinstance(t, ast.Name):
+                    if not hasattr(self, "local_lists"):
+                        self.local_lists = set()
+                    fresh_list = isinstance(st.value, ast.List) or (isinstance(st.value, ast.Call) and isinstance(st.value.func, ast.Name)
+                                                                      and st.value.func.id == "list" and not st.value.args)
+                    (self.local_lists.add if fresh_list else self.local_lists.discard)(t.id)
         elif isinstance(st, ast.AugAssign):
             self.kind(st.value)
         elif isinstance(st, ast.Return):
             if st.value is not None:
-                self.kind(st.value)
+                rk = self.kind(st.value)
+                if rk in (NODE, NODELIST, KW, KWLIST, PAIRS):
+                    # the walker hands back evaluated values, never pieces of the syntax tree it was given
+                    self.bad("effect[returns-values]", st, "the walker returns (part of) the syntax tree instead of an evaluated value")
         elif isinstance(st, ast.Raise):
             if st.exc is not None:
                 self.kind(st.exc)
